@@ -3,4 +3,5 @@ INVARIANT InvFailureIsSilent
 INVARIANT InvSuccessEqualsApi
 INVARIANT InvNeverOverwrite
 INVARIANT InvBip44Shaped
+INVARIANT InvPasswordHonoured
 INVARIANT ExitIsSet
